@@ -11,11 +11,13 @@ import (
 	"fmt"
 	"os"
 	"strings"
+	"sync"
 	"testing"
 	"time"
 
 	"verifharness/hx"
 
+	"github.com/projecteru2/core/types"
 	"github.com/projecteru2/core/utils"
 )
 
@@ -34,6 +36,8 @@ type kase struct {
 	Then   string         `json:"then"`   // ok | fail | absent
 	Rb     string         `json:"rb"`     // ok | fail | absent
 	Cancel string         `json:"cancel"` // never beforeCond duringCond beforeThen duringThen beforeRollback duringRollback afterAll
+	Slow   string         `json:"slow"`   // none | cond | then | rollback: the step that runs for longer than ttl
+	Traced bool           `json:"traced"` // the caller's context carries a types.TracingID value
 	Impl   map[string]any `json:"impl"`
 }
 
@@ -41,14 +45,25 @@ var errCond = errors.New("cond failed")
 var errThen = errors.New("then failed")
 var errRb = errors.New("rollback failed")
 
-type tracingKey = struct{}
+const (
+	shortTTL  = 120 * time.Millisecond
+	slowSleep = 200 * time.Millisecond
+)
 
 func run(k *kase) {
 	impl := map[string]any{}
 	k.Impl = impl
 	calls := []call{}
-	ctx0, cancel := context.WithCancel(context.Background())
+	base := context.Background()
+	if k.Traced {
+		base = context.WithValue(base, types.TracingID, "tid-1")
+	}
+	ctx0, cancel := context.WithCancel(base)
 	defer cancel()
+	ttl := time.Hour
+	if k.Slow != "" && k.Slow != "none" {
+		ttl = shortTTL
+	}
 	step := func(name string, outcome string, e error, flag *bool) func(context.Context) error {
 		return func(ctx context.Context) error {
 			if k.Cancel == "before"+name {
@@ -59,7 +74,12 @@ func run(k *kase) {
 				cancel()
 				// cancellation of a derived context is propagated synchronously by context.WithCancel/WithTimeout
 			}
+			if strings.EqualFold(k.Slow, name) {
+				time.Sleep(slowSleep) // this step overruns ttl
+			}
 			c.Exit = ctx.Err() != nil
+			tid, _ := ctx.Value(types.TracingID).(string)
+			c.Traced = tid == "tid-1"
 			calls = append(calls, c)
 			if outcome == "fail" {
 				return e
@@ -83,7 +103,7 @@ func run(k *kase) {
 			if k.Rb != "absent" {
 				rb = step("Rollback", k.Rb, errRb, nil)
 			}
-			err = utils.PCR(ctx0, cond, then, rb, time.Hour)
+			err = utils.PCR(ctx0, cond, then, rb, ttl)
 		} else {
 			var rb func(context.Context, bool) error
 			if k.Rb != "absent" {
@@ -91,7 +111,7 @@ func run(k *kase) {
 					return step("Rollback", k.Rb, errRb, &byCond)(ctx)
 				}
 			}
-			err = utils.Txn(ctx0, cond, then, rb, time.Hour)
+			err = utils.Txn(ctx0, cond, then, rb, ttl)
 		}
 	})
 	if k.Cancel == "afterAll" {
@@ -141,18 +161,37 @@ func TestGen(t *testing.T) {
 				for _, th := range []string{"ok", "fail", "absent"} {
 					for _, rb := range []string{"ok", "fail", "absent"} {
 						for _, ca := range []string{"never", "beforeCond", "duringCond", "beforeThen", "duringThen", "beforeRollback", "duringRollback", "afterAll"} {
-							cases = append(cases, &kase{ID: fmt.Sprintf("t%d", i), Fn: fn, Cond: c, Then: th, Rb: rb, Cancel: ca})
-							i++
+							// every row: plain; with each step overrunning ttl; with a caller context carrying a tracing id
+							for _, v := range [][2]string{{"none", ""}, {"cond", ""}, {"then", ""}, {"rollback", ""}, {"none", "traced"}} {
+								cases = append(cases, &kase{ID: fmt.Sprintf("t%d", i), Fn: fn, Cond: c, Then: th, Rb: rb, Cancel: ca, Slow: v[0], Traced: v[1] != ""})
+								i++
+							}
 						}
 					}
 				}
 			}
 		}
 	}
+	// the slow rows sleep in real time: run the (independent) rows on 48 goroutines
+	var wg sync.WaitGroup
+	ch := make(chan *kase)
+	for w := 0; w < 48; w++ {
+		wg.Add(1)
+		go func() {
+			defer wg.Done()
+			for k := range ch {
+				run(k)
+			}
+		}()
+	}
+	for _, k := range cases {
+		ch <- k
+	}
+	close(ch)
+	wg.Wait()
 	out := hx.OpenOut()
 	defer out.Close()
 	for _, k := range cases {
-		run(k)
 		out.Emit(k)
 	}
 }
